@@ -147,40 +147,81 @@ def rule_reset(ctx, R, F, config='K0'):
     R.check(not other, 'resetRoundingMode reads no FP state', '%s:%d' % (f['file'], f['line']), expected='no other call', found=other or 'none')
 
 
+CSR_CTRL = 0xFFC0        # MXCSR bits that influence results: DAZ (6), exception masks (7-12), RC (13-14), FTZ (15); bits 0-5 are sticky status flags
+CSR_DEFAULT = 0x9FC0     # FTZ, DAZ, all exceptions masked, round to nearest
+
+
+def csr_after(F, f, csr, env=None):
+    """abstract MXCSR (known bits) after executing f when it is entered with MXCSR = csr: every _mm_setcsr(e) assigns the known-bits value of e,
+    _mm_getcsr() reads the current abstract value (so read-modify-write sequences keep the unknown bits unknown)"""
+    import domains
+    state = {'csr': csr}
+    order = []
+    for x in walk(f['body']):
+        if x['k'] == 'Call' and x.get('name') == '_mm_setcsr':
+            order.append(x)
+    if any(x['k'] in ('If', 'For', 'While', 'Do', 'Switch') for x in walk(f['body'])):
+        raise AnalysisBroken('%s: control flow in an FP-state helper is not supported' % f['q'])
+
+    class Ev(domains.KBEval):
+        def call(self, n):
+            if n.get('name') == '_mm_getcsr':
+                return state['csr']
+            return domains.KBEval.call(self, n)
+    for c in order:
+        ev = Ev(F, dict(env or {}))
+        v = ev.ev(c['a'][0])
+        state['csr'] = v if v.w == 32 else v.resize(32, False)
+    return state['csr'], len(order)
+
+
+def reset_word(F):
+    import domains
+    f = F.func('rx_reset_float_state')
+    kb, n = csr_after(F, f, domains.KB.top(32))
+    return f, kb, n
+
+
 def rule_resetword(ctx, R, F):
     """FP-RESETWORD: the control words written depend on constants and two mode bits only."""
     import domains
-    R.rule('FP-RESETWORD', 'rx_reset_float_state writes exactly rx_mxcsr_default (0x9FC0: FTZ, DAZ, all exceptions masked, round-to-nearest); '
-           'rx_set_rounding_mode writes a word that differs from it in bits 13-14 only and reads no FP state', min_instances=3)
-    dflt = F.const('rx_mxcsr_default')
-    R.eq('rx_mxcsr_default', F.glob('rx_mxcsr_default')['file'] + ':%d' % F.glob('rx_mxcsr_default')['line'], 0x9FC0, dflt,
-         detail='bit15 FTZ, bits 7-12 exception masks, bit 6 DAZ, bits 13-14 RC=00, flags 0-5 clear')
-    f = F.func('rx_reset_float_state')
-    cs = [c for c in calls(f['body']) if c.get('name') == '_mm_setcsr']
-    R.check(len(cs) == 1 and val(cs[0]['a'][0]) == dflt and not [c for c in calls(f['body']) if c.get('name') == '_mm_getcsr'], 'rx_reset_float_state', '%s:%d' % (f['file'], f['line']),
-            expected='_mm_setcsr(%#x) and no _mm_getcsr' % dflt, found=[show(c) for c in calls(f['body'])])
-    f = F.func('rx_set_rounding_mode')
-    cs = [c for c in calls(f['body']) if c.get('name') == '_mm_setcsr']
-    if len(cs) != 1:
-        R.violation('rx_set_rounding_mode', '%s:%d' % (f['file'], f['line']), expected='one _mm_setcsr', found=len(cs))
-        return
-    pid = f['params'][0]['id']
-    ev = domains.KBEval(F, {pid: domains.KB(32, 0xffffffff & ~3, 0)})   # callers pass a 2-bit mode (checked below for every caller)
-    kb = ev.ev(cs[0]['a'][0])
-    unknown = kb.unknown()
-    R.check(unknown & ~(3 << 13) == 0 and (kb.ones | kb.zeros | (3 << 13)) == kb.mask and (kb.ones & ~(3 << 13)) == dflt and not [c for c in calls(f['body']) if c.get('name') == '_mm_getcsr'],
-            'rx_set_rounding_mode word', loc(cs[0], f), expected='%#x | (mode << 13): only bits 13-14 depend on the argument' % dflt,
-            found='%s for mode in 0..3' % kb.hexpat())
+    R.rule('FP-RESETWORD', 'whatever MXCSR the caller had, rx_reset_float_state leaves FTZ, DAZ, all six exception masks set and RC = nearest (0x9FC0 on bits 6-15); rx_set_rounding_mode changes bits 13-14 to its argument and nothing else, '
+           'independently of the previous rounding bits (abstract interpretation of the MXCSR reads and writes in the known-bits domain)', min_instances=3)
+    f, kb, n = reset_word(F)
+    ctrl_known = (kb.ones | kb.zeros) & CSR_CTRL
+    R.check(n >= 1 and ctrl_known == CSR_CTRL and (kb.ones & CSR_CTRL) == CSR_DEFAULT, 'rx_reset_float_state', '%s:%d' % (f['file'], f['line']),
+            expected='MXCSR bits 6-15 = %#x for every MXCSR on entry' % CSR_DEFAULT, found='%s (bits still depending on the caller: %#x)' % (kb.hexpat(), CSR_CTRL & ~ctrl_known))
+    g = F.func('rx_set_rounding_mode')
+    pid = g['params'][0]['id']
+    entry = domains.KB(32, (~CSR_DEFAULT) & CSR_CTRL & ~(3 << 13), CSR_DEFAULT)     # state established by the reset, any rounding bits, any flags
+    for mode in range(4):
+        kb2, n2 = csr_after(F, g, entry, {pid: domains.KB.const(32, mode)})
+        known = (kb2.ones | kb2.zeros) & CSR_CTRL
+        R.check(n2 >= 1 and known == CSR_CTRL and (kb2.ones & CSR_CTRL) == (CSR_DEFAULT | (mode << 13)), 'rx_set_rounding_mode(%d)' % mode, '%s:%d' % (g['file'], g['line']),
+                expected='MXCSR bits 6-15 = %#x whatever the previous rounding bits' % (CSR_DEFAULT | (mode << 13)), found=kb2.hexpat())
     # every caller in the library passes a 2-bit value
     ncall = 0
-    for g in F.all_funcs():
-        for c in calls(g['body']) if g.get('body') else []:
+    for h in F.all_funcs():
+        for c in calls(h['body']) if h.get('body') else []:
             if c.get('name') == 'rx_set_rounding_mode':
                 ncall += 1
-                kb = domains.KBEval(F, {}).ev(c['a'][0])
-                R.check(kb.umax() <= 3, '%s: mode argument' % g['q'], loc(c, g), expected='argument in 0..3', found='max %d (%s)' % (kb.umax(), show(c['a'][0])))
+                kbm = domains.KBEval(F, {}).ev(c['a'][0])
+                R.check(kbm.umax() <= 3, '%s: mode argument' % h['q'], loc(c, h), expected='argument in 0..3', found='max %d (%s)' % (kbm.umax(), show(c['a'][0])))
     if ncall < 1:
         raise AnalysisBroken('no caller of rx_set_rounding_mode found')
+    # rx_get_rounding_mode returns bits 13-14 of the current word
+    gg = F.func('rx_get_rounding_mode') if F.has_func('rx_get_rounding_mode') else None
+    if gg is not None:
+        for mode in range(4):
+            st = domains.KB.const(32, CSR_DEFAULT | (mode << 13))
+
+            class Ev(domains.KBEval):
+                def call(self, n):
+                    if n.get('name') == '_mm_getcsr':
+                        return st
+                    return domains.KBEval.call(self, n)
+            r = Ev(F, {}).run_body(gg)
+            R.check(r is not None and r.value() == mode, 'rx_get_rounding_mode with RC = %d' % mode, '%s:%d' % (gg['file'], gg['line']), expected=mode, found=r.hexpat() if r is not None else None)
 
 
 def rule_noleak(ctx, R):
@@ -698,3 +739,55 @@ def rule_stateinit(ctx, R, F):
         want = {'&this->reg.r[i]': 8, '&this->reg.f[i].lo': 4, '&this->reg.e[i].lo': 4}
         for k_, n_ in want.items():
             R.check(tail.get(k_) == n_, '%s stores %s' % (strip_targs(ex['q']), k_), '%s:%d' % (ex['file'], ex['line']), expected='loop of %d stores' % n_, found=tail.get(k_))
+
+
+def rule_bind_excl(ctx, R):
+    """[BIND-EXCL] randomx_create_vm calls setCache and setDataset on the same object when it is given both; cachePtr and datasetPtr share
+    storage (a union in randomx_vm) and both setters may overwrite mem.memory, so in every concrete VM class at most one of the two
+    *resolved* virtual setters may write through `this` (light classes bind the cache and ignore the dataset, full-memory classes the reverse)."""
+    import irq
+    R.rule('BIND-EXCL', 'in the vtable of every concrete VM class at most one of setCache / setDataset writes to the object: a class that binds the cache must ignore setDataset (its datasetPtr aliases cachePtr) and vice versa, '
+           'because randomx_create_vm(flags, cache, dataset) calls both', min_instances=16)
+    M = irq.Module(ctx.ir())
+    n = 0
+    for vt in M.vtables():
+        dem = vt.get('dem') or vt['name']
+        if 'Vm<' not in dem:
+            continue
+        cls = dem.replace('vtable for ', '')
+        setters = {}
+        for s in vt['slots']:
+            f = M.fn.get(s) if s else None
+            if f is None:
+                continue
+            m = re.search(r'::(setCache|setDataset)\(', f['dem'])
+            if m:
+                setters[m.group(1)] = f
+        if len(setters) != 2:
+            continue
+        n += 1
+        writes = {}
+        for k, f in setters.items():
+            w = []
+            if f['defined']:
+                for i, addr, kind in M.write_sites(f):
+                    roots = M.roots(f, addr)
+                    if any(r[0] == 'arg' and r[1] == 0 for r in roots) or any(r[0] == 'a' and r[1] == 0 for r in roots):
+                        w.append(kind)
+                # calls that receive `this` (e.g. the JIT compiler member) count as writes to the object
+                for i in M.insts(f):
+                    if i['op'] in ('call', 'invoke') and not (i.get('callee') or '').startswith('llvm.'):
+                        for o in i['ops']:
+                            if any((r[0] in ('arg', 'a')) and r[1] == 0 for r in M.roots(f, o)):
+                                w.append('call %s' % (M.fn[i['callee']]['dem'][:40] if i.get('callee') in M.fn else 'indirect'))
+                                break
+            writes[k] = w
+        both = bool(writes['setCache']) and bool(writes['setDataset'])
+        light = 'Light' in cls
+        want = 'setCache' if light else 'setDataset'
+        other = 'setDataset' if light else 'setCache'
+        R.check(not both and bool(writes[want]) and not writes[other], cls[:90], 'src/' + ('vm_interpreted_light.hpp' if 'InterpretedLight' in cls else 'vm_compiled_light.hpp' if 'CompiledLight' in cls else 'vm_interpreted.hpp' if 'Interpreted' in cls else 'vm_compiled.hpp'),
+                expected='%s binds, %s is a no-op' % (want, other),
+                found='setCache -> %s writes %s; setDataset -> %s writes %s' % (setters['setCache']['dem'].split('(')[0][-50:], writes['setCache'][:2] or 'nothing', setters['setDataset']['dem'].split('(')[0][-50:], writes['setDataset'][:2] or 'nothing'))
+    if n < 16:
+        raise AnalysisBroken('BIND-EXCL: only %d VM vtables with both setters found' % n)
